@@ -75,6 +75,9 @@ def kind_tokens(kind, r):
         "crowded": ("", [("kitten-gw", "word"), (v4, "ip"), ("12", "as"), (v6, "ip"), ("x", None), ("password", None), (sec, "pwd")]),
         "scrubline": (" ", [("peer", None), (v4, "ip"), ("kitten-x", "word"), ("65001", "as"), ("key-string", "scrub"), ("7", "scrub"), ("0822455D0A16544541", "scrub")]),
         "nodigit-pwd": ("", [("enable", None), ("password", None), (r.choice(["QwertySecretValue", "AnotherSecretXq", "ThirdSecretZw"]), "pwd")]),
+        "pwd-fixed-quoted": ("", [("snmp-server", None), ("community", None), (r.choice(['"FixedCommStrXq"', "'FixedCommStrXq'", '"FixedCommStrXq";', "[FixedCommStrXq]"]), "pwd"), ("RO", None)]),
+        "v6-tail": (" ", [("tunnel", None), ("destination", None), (r.choice(["64:ff9b::198.51.100.9", "::ffff:203.0.113.77", "2001:db8:aaaa::172.31.200.14"]), "ip")]),
+        "pwd-reserved-caps": ("", [("enable", None), ("password", None), (r.choice(["CHANGEME", "changeme"]), "resv")]),
         "v4-mask-zeros": (" ", [("netmask", None), (v4, "ip"), (r.choice(["255.255.255.000", "000.000.000.255", "255.255.000.000"]), None)]),
     }
     return table[kind]
@@ -89,8 +92,11 @@ def render(kind, r, eol):
     return body + eol, toks
 
 
+RESERVED = ["CHANGEME", "MyResvWord"]
+
+
 def make_fa(feats, salt, undo=False):
-    return AF.FileAnonymizer(anon_pwd="pwd" in feats, anon_ip=("ip" in feats and not undo), salt=salt,
+    return AF.FileAnonymizer(anon_pwd="pwd" in feats, anon_ip=("ip" in feats and not undo), salt=salt, reserved_words=list(RESERVED),
                              sensitive_words=list(WORDS) if "word" in feats else None, undo_ip_anon=("ip" in feats and undo),
                              as_numbers=list(asns_for(salt)) if "as" in feats else None)
 
@@ -156,6 +162,8 @@ def sens_positions(toks, feats):
             out.append(i + 1)
         elif f == "scrub" and "pwd" in feats:
             out.append(i + 1)
+        elif f == "resv" and "pwd" in feats and t not in RESERVED:
+            out.append(i + 1)
         elif "as" in feats and has_listed_as_run(t):
             out.append(i + 1)
         elif "word" in feats and any(w in t.lower() for w in WORDS):
@@ -220,7 +228,7 @@ def run_c12(ck, tier):
                     pin, pout = os.path.join(base, "in_%d.cfg" % ci), os.path.join(base, "out_%d.cfg" % ci)
                     with open(pin, "w", encoding="utf-8", newline="") as fh:
                         fh.write(text)
-                    AF.anonymize_files(pin, pout, "pwd" in feats, "ip" in feats, salt="TESTSALT", sensitive_words=list(WORDS) if "word" in feats else None,
+                    AF.anonymize_files(pin, pout, "pwd" in feats, "ip" in feats, salt="TESTSALT", sensitive_words=list(WORDS) if "word" in feats else None, reserved_words=list(RESERVED),
                                        as_numbers=list(asns_for("TESTSALT")) if "as" in feats else None)
                     fo = open(pout, encoding="utf-8", newline="").read() if os.path.isfile(pout) else "<no output file>"
                     ev.append({"ev": "same", "what": "fileentry", "a": out, "b": fo})
@@ -255,11 +263,13 @@ def chain_stagewise(feats, salt, text, undo=False):
     lookup = {}
     a6 = ipa.IpV6Anonymizer(salt, preserve_suffix=None) if "ip" in feats else None
     a4 = ipa.IpAnonymizer(salt, None, None, preserve_suffix=None) if "ip" in feats else None
-    wa = SIR.SensitiveWordAnonymizer(list(WORDS), salt) if "word" in feats else None
+    from netconan.default_reserved_words import default_reserved_words
+    resv = set(default_reserved_words) | set(RESERVED)
+    wa = SIR.SensitiveWordAnonymizer(list(WORDS), salt, resv) if "word" in feats else None
     aa = SIR.AsNumberAnonymizer(list(asns_for(salt)), salt) if "as" in feats else None
     outs = list(lines)
     if regexes is not None:
-        outs = [SIR.replace_matching_item(regexes, x, lookup, salt) for x in outs]
+        outs = [SIR.replace_matching_item(regexes, x, lookup, salt, resv) for x in outs]
     if a6 is not None:
         outs = [ipa.anonymize_ip_addr(a6, x, undo) for x in outs]
     if a4 is not None:
@@ -302,10 +312,11 @@ def run_c15(ck, tier):
             info.append(("stagewise", repr(text)))
             ev.append({"ev": "same", "what": "fileanonymizers", "a": multi, "b": chain_fileanonymizers(feats, salt, text)})
             info.append(("fileanonymizers", repr(text)))
-            if "ip" in feats and ci % 4 == 0:
-                mu = run_io(make_fa(feats, salt, undo=True), multi)[0]
-                ev.append({"ev": "same", "what": "undo", "a": mu, "b": chain_stagewise(feats, salt, multi, undo=True)})
-                info.append(("undo", repr(multi)))
+            if "ip" in feats and ci % 3 == 0:
+                for src in (multi, text):          # undo of anonymized output, and of text that was never anonymized
+                    mu = run_io(make_fa(feats, salt, undo=True), src)[0]
+                    ev.append({"ev": "same", "what": "undo", "a": mu, "b": chain_stagewise(feats, salt, src, undo=True)})
+                    info.append(("undo", repr(src)))
         except Exception as e:
             ev.append({"ev": "exc", "what": "%s: %s" % (type(e).__name__, e)})
             info.append(("exception", repr(text)))
